@@ -291,6 +291,7 @@ def judge(e: Any) -> tuple[str, str]:
     except (OverflowError, MemoryError, RecursionError, ValueError, TypeError, ZeroDivisionError,
             NotImplementedError, AttributeError) as r:
         want = DontCare(f"reference cannot evaluate this tree: {type(r).__name__}")
+        want.sympy_recursion = isinstance(r, RecursionError)  # type: ignore[attr-defined]
     try:
         q = Quantity(e)
         got: Any = (q.scale_factor, q.dimension)
@@ -299,6 +300,8 @@ def judge(e: Any) -> tuple[str, str]:
     except (RecursionError, OverflowError, ZeroDivisionError, AttributeError, NotImplementedError) as ex:
         got = ex
     if isinstance(want, DontCare):
+        if isinstance(got, RecursionError) and getattr(want, "sympy_recursion", False):
+            return "dontcare", ""  # sympy itself recurses forever on these numbers (Mod of beta)
         if isinstance(got, Exception) and not isinstance(got, REFUSALS + (OverflowError,
                 ZeroDivisionError, AttributeError, NotImplementedError)):
             return "dontcare", f"unexpected exception {type(got).__name__}: {short(got)}"
